@@ -62,6 +62,14 @@ DEFAULT_ENCODING = "utf-8"
 logger = logging.getLogger(__name__)
 
 
+def _do_commit(repo, **kwargs):
+    # dulwich >= 0.24 moved Repo.do_commit() to WorkTree.commit()
+    do_commit = getattr(repo, "do_commit", None)
+    if do_commit is None:
+        do_commit = repo.get_worktree().commit
+    return do_commit(**kwargs)
+
+
 class RepoCollectionMetadata(CollectionMetadata):
     def __init__(self, repo) -> None:
         self._repo = repo
@@ -603,8 +611,8 @@ class BareGitStore(GitStore):
         return cls(dulwich.repo.MemoryRepo())
 
     def _commit_tree(self, tree_id, message, author=None):
-        return self.repo.do_commit(
-            message=message, tree=tree_id, ref=self.ref, author=author
+        return _do_commit(
+            self.repo, message=message, tree=tree_id, ref=self.ref, author=author
         )
 
     def _import_one(
@@ -703,7 +711,7 @@ class TreeGitStore(GitStore):
 
     def _commit_tree(self, index, message, author=None):
         tree = index.commit(self.repo.object_store)
-        return self.repo.do_commit(message=message, author=author, tree=tree)
+        return _do_commit(self.repo, message=message, author=author, tree=tree)
 
     def _import_one(
         self,
